@@ -251,7 +251,7 @@ class Result:
         self.violations.append([key, what + "\n" + m.describe(), single.text, mi])
 
 
-def run_layout(dora, path, lay, res, depth_left=3):
+def run_layout(dora, path, lay, res, depth_left=6):
     """Compile one file and compare; a compiler panic is bisected to one match, reported, and the rest is retried."""
     o = compile_static(dora, path, lay.text)
     err = o.stderr.decode("utf-8", "replace")
@@ -488,7 +488,7 @@ def run(ctx):
             continue
         nf = max(1, int(nf * scale))
         for i in range(nf):
-            n = 12 if f in ("restm", "restt") else PER_FILE
+            n = 24 if f in ("restm", "restt") else PER_FILE
             add(kind="sample", family=f, index=i, n=n,
                 exec_n=(exec_per_file if i < exec_files[f] and opts.get("noexec") != "1" else 0))
     # big files first: better load balance
